@@ -496,6 +496,8 @@ def owners_of(key):
         own.add("C14")
     if fam == "geo" and clause in ("DF_OperandsUnchanged", "DF_RejectUnchanged", "DF_Rejects", "DF_Accepts", "DF_Sharing"):
         own = {"C13"}
+        if clause == "DF_Sharing":
+            own.add("C14")   # a mesh that shares its region with its own copy loses its subregions at the next in-place step
     if op == "getsub" and clause in ("DF_Sharing", "DF_CellAligned", "DF_Geometry"):
         own.add("C14")
     return own
